@@ -354,8 +354,8 @@ type constMap struct {
 	fields int                         // 0: scalar values; n>0: struct values with n fields
 }
 
-var constMapCache sync.Map   // *ssa.Global -> *constMap (nil when the variable is not a constant table)
-var pkgFuncsCache sync.Map   // *ssa.Package -> []*ssa.Function
+var constMapCache sync.Map // *ssa.Global -> *constMap (nil when the variable is not a constant table)
+var pkgFuncsCache sync.Map // *ssa.Package -> []*ssa.Function
 
 func pkgFunctions(pkg *ssa.Package) []*ssa.Function {
 	if v, ok := pkgFuncsCache.Load(pkg); ok {
